@@ -147,12 +147,32 @@ def _worker_run(item):
         impl.clear_caches()
         mod.run_unit(unit, ctx)
         impl.reset_mode()
-    except BaseException:
-        return {"unit_index": idx, "harness_error": traceback.format_exc(), "unit": repr(unit)[:500]}
+    except BaseException as ex:
+        if not _raised_in_library(ex):
+            return {"unit_index": idx, "harness_error": traceback.format_exc(), "unit": repr(unit)[:500]}
+        # the library itself raised on an input the harness holds to be valid (and no per-case guard caught it):
+        # that is an observation about the code under test, not a harness fault
+        ctx.violation("library_raised", {"exc": type(ex).__name__}, {"kind": "unit", "unit": _js_unit(unit)},
+                      "the operation returns (inputs are valid by construction)",
+                      "".join(traceback.format_exception(type(ex), ex, ex.__traceback__)[-4:]))
     res = ctx.result()
     res["wall"] = time.time() - t_unit
     res["unit"] = repr(unit)[:200]
     return res
+
+
+def _raised_in_library(ex):
+    tb = ex.__traceback__
+    last = None
+    while tb is not None:
+        last = tb.tb_frame.f_code.co_filename
+        tb = tb.tb_next
+    repo = os.path.realpath(os.environ.get("VERIF_REPO", "/repo"))
+    return last is not None and os.path.realpath(last).startswith(repo + os.sep)
+
+
+def _js_unit(unit):
+    return json.loads(json.dumps(unit, default=repr))
 
 
 def _selfcheck_run(u):
@@ -324,14 +344,15 @@ def run_check(check_id, tier, seed):
         print("  caps hit: %s" % json.dumps(caps))
     for fid, (f, n) in sorted(known.items()):
         print("KNOWN-FINDING: property=%s %s [%s, %d case(s) this run]" % (check_id, f["what"], fid, n))
+    for ln in lines:
+        print(ln)
     vac = getattr(mod, "vacuity", None)
-    if vac is not None:
+    if vac is not None and not unknown:
+        # only a run that is about to report "held" can be vacuous; violations are reported regardless
         msg = vac(tier, counters, outcome_counts)
         if msg:
             sys.stderr.write("HARNESS ERROR: vacuous exploration: %s\n" % msg)
             return 2
-    for ln in lines:
-        print(ln)
     if unknown:
         print("  %d violation(s) recorded not matching any known finding; by oracle: %s" % (
             len(unknown), json.dumps(per_oracle)))
@@ -368,7 +389,22 @@ def replay_main(argv=None):
     from isomc import impl
     impl.reset_mode()
     ctx = Ctx(v["property"], "replay", 0)
-    mod.replay_case(v["case"], ctx)
+    if isinstance(v["case"], dict) and v["case"].get("kind") == "unit":
+        def _tup(x):
+            return tuple(_tup(y) for y in x) if isinstance(x, list) else x
+        unit = _tup(v["case"]["unit"])
+        # units are tuples whose list-valued members are lists in the original; try both shapes
+        for cand in (unit, tuple(v["case"]["unit"])):
+            try:
+                mod.run_unit(cand, ctx)
+                break
+            except BaseException as ex:  # noqa
+                if _raised_in_library(ex):
+                    ctx.violation("library_raised", {"exc": type(ex).__name__}, v["case"], "returns",
+                                  "".join(traceback.format_exception(type(ex), ex, ex.__traceback__)[-4:]))
+                    break
+    else:
+        mod.replay_case(v["case"], ctx)
     impl.reset_mode()
     print("replay of %s: case=%s" % (path, json.dumps(v["case"], default=repr)))
     hit = [x for x in ctx.violations if x["oracle"] == v["oracle"]]
